@@ -50,7 +50,7 @@ func init() {
 	reg(&Prop{ID: "C01", Level: "exploration",
 		Quick:    Tier{Cases: 40000, PerJob: 2500, Seconds: 70},
 		Thorough: Tier{Cases: 1500000, PerJob: 25000, Seconds: 1500},
-		Rule:     "one case = blob (empty / all-zero / shorter than a chunk / segment mix up to 48 chunks) x chunk sizes below and above the 4 KiB block x 0..3 seeds (edited copies, identical, empty file + empty index, duplicates, stale or truncated after indexing, the target itself) x prior target content (absent, empty, garbage, longer, shorter, older version, already correct, non-zero where the blob is zero) x N in 1..8 x invalid-seed action x {cloning filesystem emulated, no cloning}; 1/4 of cases inject store faults (k-th GetChunk fails / missing / slow), 1/6 rewrite part of a seed file at a tape-chosen I/O point during the run, 1/3 make every file-system call a scheduling point; oracle = nil => target bytes == blob, and success required when the liveness clause applies; distinct = distinct (configuration class, scheduler trace hash, clone-call counts); non-trivial = preemption or fault fired",
+		Rule:     "one case = blob (empty / all-zero / shorter than a chunk / segment mix up to 48 chunks) x chunk sizes below and above the 4 KiB block x 0..3 seeds (edited copies, identical, empty file + empty index, duplicates, stale or truncated after indexing, the target itself) x prior target content (absent, empty, garbage, longer, shorter, older version, already correct, non-zero where the blob is zero) x N in 1..8 x invalid-seed action x {cloning filesystem emulated, no cloning}; 1/4 of cases inject store faults (k-th GetChunk fails / missing / slow), 1/6 rewrite part of a seed file at a tape-chosen I/O point during the run, 1/3 make every file-system call a scheduling point; oracle = nil => target bytes == blob, and success required when the liveness clause applies; distinct = distinct (configuration class, scheduler trace hash, clone-call counts); non-trivial = preemption or fault fired; 1/80 of the cases run the real `desync extract` binary (seeds as files with .caibx indexes, --skip-invalid-seeds / --regenerate-invalid-seeds, --in-place, prior destination content) against a real local store with the same oracle",
 		Assumptions: []string{
 			"FICLONERANGE is emulated in process with the alignment, EOF, length-0 and overlap rules of ioctl_ficlonerange(2)/generic_remap_checks; block size 4096 (tmpfs st_blksize)",
 			"scheduling granularity = channel/lock/store operations (plus file-system calls in 1/3 of the cases)",
@@ -96,7 +96,7 @@ func init() {
 	reg(&Prop{ID: "C09", Level: "exploration",
 		Quick:    Tier{Cases: 120000, PerJob: 7500, Seconds: 60},
 		Thorough: Tier{Cases: 6000000, PerJob: 100000, Seconds: 1500},
-		Rule:     "one case = blob (empty, single short chunk, all-null, built from repeated chunks, generic with an inserted run of null chunks) x small chunk sizes x one of {IndexPos Seek/Read history of 1..60 operations with every whence, in/out-of-range and boundary offsets and read lengths 0..3*max; FUSE index-file node read requests (offset,size) in any order on 1..3 handles; the same on one handle shared by 2..3 concurrent tasks under the seeded scheduler} x store faults (k-th GetChunk fails or reports missing) in half of the cases; oracle = bytes.Reader-style model over the blob (returned bytes equal the blob range, short only at EOF or with an error, failed seek keeps the position, errors only when a fault was injected during the call, no panic); sub_evaluations = individual Seek/Read/FUSE requests; distinct = distinct (mode, sizes, faulty, chunk-count bucket, trace hash, outcome); every case is counted non-trivial (each is a multi-operation history)",
+		Rule:     "one case = blob (empty, single short chunk, all-null, built from repeated chunks, generic with an inserted run of null chunks) x small chunk sizes x one of {IndexPos Seek/Read history of 1..60 operations with every whence, in/out-of-range and boundary offsets and read lengths 0..3*max; FUSE index-file node read requests (offset,size) in any order on 1..3 handles; the same on one handle shared by 2..3 concurrent tasks under the seeded scheduler} x store faults (k-th GetChunk fails or reports missing) in half of the cases; oracle = bytes.Reader-style model over the blob (returned bytes equal the blob range, short only at EOF or with an error, failed seek keeps the position, errors only when a fault was injected during the call, no panic); sub_evaluations = individual Seek/Read/FUSE requests; distinct = distinct (mode, sizes, faulty, chunk-count bucket, trace hash, outcome); every case is counted non-trivial (each is a multi-operation history); 1/400 of the cases run the real `desync cat -o <offset> -l <length>` binary against a real local store",
 		Assumptions: []string{
 			"no FUSE mount is possible in the sandbox: the node methods (Open/Read/Getattr) are driven in process, the kernel <-> go-fuse path is not exercised",
 			"FUSE offsets are limited to 0..size as the kernel does after Getattr",
@@ -118,7 +118,7 @@ func init() {
 	reg(&Prop{ID: "C17", Level: "fault_enumeration",
 		Quick:    Tier{Cases: 1600, PerJob: 100, Seconds: 60},
 		Thorough: Tier{Cases: 120000, PerJob: 1500, Seconds: 1500},
-		Rule:     "one case = blob (generic, optionally with runs of different constant bytes so that equal-size chunks with different IDs exist; up to 400 chunks so that batch sizes > 1 occur) x worker count n in 1..64 (incl. n chosen so that chunks/(10n) >= 1); the intact file must verify; then every fault of the enumeration must be rejected: a single changed byte at EVERY position for blobs <= 1500 bytes, else at 24 positions biased to the first, last and batch-boundary chunks, truncation and extension by 1 and by tape-chosen amounts (also extension by a copy of the tail), and a swap of two equal-size chunks; every verification runs VerifyIndex with its n workers under the seeded scheduler (sub_evaluations = verifications); distinct = distinct (sizes, n, batch, trace hashes); non-trivial = a fault was applied",
+		Rule:     "one case = blob (generic, optionally with runs of different constant bytes so that equal-size chunks with different IDs exist; up to 400 chunks so that batch sizes > 1 occur) x worker count n in 1..64 (incl. n chosen so that chunks/(10n) >= 1); the intact file must verify; then every fault of the enumeration must be rejected: a single changed byte at EVERY position for blobs <= 1500 bytes, else at 24 positions biased to the first, last and batch-boundary chunks, truncation and extension by 1 and by tape-chosen amounts (also extension by a copy of the tail), and a swap of two equal-size chunks; every verification runs VerifyIndex with its n workers under the seeded scheduler (sub_evaluations = verifications); distinct = distinct (sizes, n, batch, trace hashes); non-trivial = a fault was applied; 1/12 of the cases run the real `desync verify-index` binary (exit status 0 iff the file matches)",
 		Assumptions: []string{
 			"single-byte change = one bit flipped in that byte; other byte values are covered by the hash's properties, not enumerated",
 			"exhaustive over byte positions only for blobs <= 1500 bytes (stated per case in the notes)",
@@ -198,7 +198,7 @@ func init() {
 	reg(&Prop{ID: "C16", Level: "exploration",
 		Quick:    Tier{Cases: 32000, PerJob: 2000, Seconds: 70},
 		Thorough: Tier{Cases: 1600000, PerJob: 20000, Seconds: 1500},
-		Rule:     "one case = local store directory of 0..40 objects produced by a simulated history: valid chunks in the store's own format, the same chunk in both formats, chunks of the other format only, invalid chunks (bit flip, truncation, other data, emptied), abandoned .tmp-cacnk* files of killed writers, junk files incl. chunk-like names x store mode {compressed, uncompressed} x one of {Prune with reference set none / all / random subset / subset plus absent ids; Verify; Verify with repair, both with n in 1..6 workers sharing one writer under the seeded scheduler}; oracle: expected file set and expected set of reported ids, classified by an independent zstd+SHA validator; distinct = distinct (op, mode, object bucket, tape, trace hash); every case is non-trivial (a populated store)",
+		Rule:     "one case = local store directory of 0..40 objects produced by a simulated history: valid chunks in the store's own format, the same chunk in both formats, chunks of the other format only, invalid chunks (bit flip, truncation, other data, emptied), abandoned .tmp-cacnk* files of killed writers, junk files incl. chunk-like names x store mode {compressed, uncompressed} x one of {Prune with reference set none / all / random subset / subset plus absent ids; Verify; Verify with repair, both with n in 1..6 workers sharing one writer under the seeded scheduler}; oracle: expected file set and expected set of reported ids, classified by an independent zstd+SHA validator; distinct = distinct (op, mode, object bucket, tape, trace hash); every case is non-trivial (a populated store); 1/120 of the cases run the real `desync prune -y` / `desync verify [-r]` binary on a compressed local store with unreferenced chunks, a corrupted chunk, a temporary file and junk",
 		Assumptions: []string{
 			"the name-filter logic is a pure function of the directory listing (DESIGN.md C16 honest limit); the simulated parts are the store history (killed writers, corruption) and the concurrent Verify workers",
 			"SFTP prune is not exercised; S3 prune (1/12 of the cases) runs against a minimal in-harness S3 endpoint",
